@@ -131,6 +131,10 @@ def step (s : Unit) (j : Json) : Except String (Unit × Json × List Fired) := d
     | none => pure (s, mkObj [("err", js Generated.Err.tss_ErrInsufficientSigners), ("res", jl [])], fired)
     | some ps =>
       let ids := (ps.map fun p => avail.getD p 0).mergeSort (fun a b => decide (a ≤ b))
+      -- the committee is the one the rolling seed, the signing id and the attempt determine
+      if ierr == "" && ires != ids then
+        fired := fired ++ [{ name := "signers_are_not_the_seed_determined_ones", detail := mkObj [("got", jl (ires.map jn)), ("specified", jl (ids.map jn)),
+          ("signing", (j.getObjVal? "signing").toOption.getD Json.null)] }]
       pure (s, mkObj [("err", js ""), ("res", jl (ids.map jn))], fired)
   | _ => throw s!"unknown op {op}"
 
